@@ -173,6 +173,8 @@ func c12Life(c *mon.Ctx, r *mon.Rand, force string) {
 		desc["destination"] = "dead-port"
 		c.Class("lifetimes-with-write-errors(dead port)", 1)
 	}
+	m3ViaConfiguration = r.Chance(1, 6) // build the reporter through m3.Configuration where the options allow it
+	defer func() { m3ViaConfiguration = false }()
 	env, err := newM3Env(nSinks, opts, nil)
 	if err != nil {
 		c.Class("reporter-construction-refused(common tags exceed packet size)", 1)
